@@ -66,7 +66,8 @@ stage = [
     # the whole anonymous namespace in front of scan() (hp_vector, copy_hazards, retire_data and whatever helper they use) as ONE fragment
     fs('scan_helpers', r'namespace \{\s*typedef std::vector<void\*, allocator<void\*>> hp_vector;', body_only=True, rewrites=[
         dict(lit='auto hp_begin = plist.begin();', to='void* const* hp_begin = plist.begin();', count='0+', why=AUTO),
-        dict(lit='auto hp_end = plist.end();', to='void* const* hp_end = plist.end();', count='0+', why=AUTO)]),
+        dict(lit='auto hp_end = plist.end();', to='void* const* hp_end = plist.end();', count='0+', why=AUTO),
+        dict(re=r'void\s*\*\s*const\s*\*', to='vx_cvoidp*', count='0+', why='the front end misparses the declarator `void* const*` (pointer to const pointer) as a constant pointer and then rejects `p += n`; same type through a typedef')]),
     fs('scan', r'CDS_EXPORT_API void smr::scan\('),
     fs('help_scan', r'CDS_EXPORT_API void smr::help_scan\('),
     fs('detach_all_thread', r'CDS_EXPORT_API void smr::detach_all_thread\(\)'),
@@ -88,15 +89,18 @@ def grp(name, harness, props, expect, fns, tier='quick', unwind={'quick': 6, 'th
 
 
 SCAN = ['dhp::smr::scan', 'copy_hazards', 'retire_data', 'retired_array::push/repush/extend', 'thread_hp_storage::alloc/extend/init', 'hp_allocator::alloc', 'retired_allocator::alloc', 'guard_block::first', 'retired_block::first/last']
-GROUPS = [
+GROUPS = ([
     grp('scan_c02', 'h_scan_c02', ['C02'], [r'C02\.no_free_while_guarded', r'C02\.kept_once'], SCAN),
     grp('scan_c03_free', 'h_scan_c03_free', ['C03'], [r'C03\.freed_when_unprotected', r'C03\.at_most_once', r'C03\.no_invention'], SCAN, tier='thorough'),
     grp('scan_c03_keep', 'h_scan_c03_keep', ['C03'], [r'C03\.kept_when_protected'], SCAN, tier='thorough'),
     grp('retire', 'h_retire', ['C03', 'C02'], [r'C03\.retire_keeps_room', r'C03\.retire_conserves'], ['cds::gc::DHP::retire(T*, void(*)(void*))'] + SCAN, tier='thorough'),
     grp('help_scan', 'h_help_scan', ['C03'], [r'C03\.help_scan_conserves', r'C03\.help_scan_empties_source'], ['dhp::smr::help_scan', 'retired_array::fini'] + SCAN, tier='thorough', two=True),
-    dict(grp('retire_data_wide', 'h_retire_data_wide', ['C02', 'C03'], [r'C02\.no_free_while_guarded', r'C03\.freed_when_unprotected'], ['retire_data (search of the sorted hazard list)', 'retired_array::repush', 'retired_ptr::free'],
-              unwind={'quick': 40, 'thorough': 40}), defines=['VX_VEC_MAX=40', 'VX_WIDE_N=36'],
-         bounded='sorted hazard list of any length <= 36 with symbolic contents (duplicates allowed), one retired pointer equal to any of its entries or to none'),
+]) + [
+    dict(grp('retire_data_n%d' % n, 'h_retire_data_wide', ['C02', 'C03'], [r'C02\.no_free_while_guarded', r'C03\.freed_when_unprotected'], ['retire_data (search of the sorted hazard list)', 'retired_array::repush', 'retired_ptr::free'],
+             tier=tr, unwind={'quick': 40, 'thorough': 40}), defines=['VX_VEC_MAX=40', 'VX_WIDE_N=36', 'VX_WIDE_FIX=%d' % n],
+         bounded='sorted hazard list of length %d with symbolic contents (duplicates allowed), one retired pointer equal to any of its entries or to none' % n)
+    for n, tr in ((7, 'quick'), (17, 'quick'), (35, 'quick'), (16, 'thorough'), (24, 'thorough'), (33, 'thorough'), (36, 'thorough'))
+] + [
     grp('dtor', 'h_dtor', ['C03'], [r'C03\.dtor_disposes_all'], ['dhp::smr::~smr', 'retired_array::fini', 'thread_hp_storage::clear'], two=True),
     grp('detach_reuse', 'h_detach_reuse', ['C03', 'C02'], [r'C03\.detach_conserves', r'C03\.detach_releases_record', r'C03\.reuse'],
         ['dhp::smr::free_thread_data', 'dhp::smr::alloc_thread_data', 'retired_array::init', 'thread_hp_storage::init/clear'] + SCAN),
